@@ -1,6 +1,8 @@
 /-
   C05 — Variable-length tag contents have exactly the extent the tag size implies.
 -/
+import Mb2.Props.FnsElfIter
+import Mb2.Props.FnsFb
 import Mb2.Props.FnsDstMbi
 import Mb2.Props.FnsDstHdr
 import Mb2.Tags
